@@ -317,6 +317,19 @@ def directed_scripts(variant):
         "logger 0 sinks=0,1 lvl=0", "logger 1 sinks=2 lvl=0", "logger 2 sinks=2 lvl=0", "start",
         "T 1 start", "T 2 start", "L 1 0 4 10", "L 2 1 4 10", "P", "P", "P", "DS 0", "DS 1", "DS 2", "RL 1 0",
         "P @9.1=L_2_2_4_20,RL_2_2 @9.2=L_1_1_6_10,RL_1_1,F_2_1", "R 2", "P", "R 2", "P", "R 2", "P", "P", "Q", "X"]))
+    # C17: two / three `remove_logger_blocking` calls in flight whose loggers are erased in DIFFERENT backend passes: a statement
+    # of another thread arrives inside the first logger's sink destructor (site 9), so the per-logger emptiness check keeps the
+    # next logger for a later pass; its caller's request stays recorded and must be served by that later pass
+    out.append(("dir_two_blocking_removals_split_passes", [
+        "cfg grace=0 soft=4 hard=8 tcap=2", "sink 0 lvl=0", "sink 1 lvl=0", "sink 2 lvl=0",
+        "logger 0 sinks=0 lvl=0", "logger 1 sinks=1 lvl=0", "logger 2 sinks=2 lvl=0", "start",
+        "T 1 start", "T 2 start", "T 3 start", "DS 0", "DS 1", "RB 1 0", "RB 2 1", "P", "P",
+        "P @9.1=L_3_2_4_10", "R 1", "R 2", "P", "P", "R 2", "P", "R 2", "Q", "X"]))
+    out.append(("dir_three_blocking_removals_split_passes", [
+        "cfg grace=0 soft=4 hard=8 tcap=2", "sink 0 lvl=0", "sink 1 lvl=0", "sink 2 lvl=0", "sink 3 lvl=0",
+        "logger 0 sinks=0 lvl=0", "logger 1 sinks=1 lvl=0", "logger 2 sinks=2 lvl=0", "logger 3 sinks=3 lvl=0", "start",
+        "T 1 start", "T 2 start", "T 3 start", "T 4 start", "DS 0", "DS 1", "DS 2", "RB 1 0", "RB 2 1", "RB 3 2", "P", "P", "P",
+        "P @9.1=L_4_3_4_10", "R 1", "R 2", "R 3", "P", "P @9.1=L_4_3_4_10", "R 2", "R 3", "P", "P", "R 3", "P", "R 3", "Q", "X"]))
     # F25 (unbounded builds): a buffer created by a shrink request stays empty when the next statement does not fit in it; the
     # read pass must follow the chain past it, or a younger statement of another thread is written first
     if variant >= 2:
@@ -530,6 +543,9 @@ def oracles(lines):
     f34_req = {}        # actor -> [(clock value, poll, site)] of its requests (flush / backtrace / removal)
     f34_streak = []     # per silent poll of the current streak: dict(idx, blocker, now)
     f34_cur = dict(poll=None, site=None)   # the poll / hook site whose injected operations are being handled
+    rb_wait = {}        # actor -> (logger name, its sinks) while parked in remove_logger_blocking (C17)
+    erased_sinks = set()    # sinks whose destructor ran in an EARLIER operation: every logger that listed them is erased
+    erased_now = set()      # … in the current operation (the flag is raised at the end of the clean-up pass)
 
     def handle_front(w, res, t_now):
         nonlocal dyn_cfg_changes, dropped_log_calls, removed_loggers, backtrace_used
@@ -600,6 +616,8 @@ def oracles(lines):
                 live_logged.add(int(w[1]))
                 f34_ctrl[0] += 1
                 f34_req.setdefault(int(w[1]), []).append((t_now, f34_cur["poll"], f34_cur["site"]))
+                if res.startswith("parked:sleep"):
+                    rb_wait[int(w[1])] = (int(w[2]), list(loggers_sinks.get(int(w[2]), [])))
         elif op == "CL":
             g = int(w[2])
             if "valid=1" in res:
@@ -619,6 +637,17 @@ def oracles(lines):
             a = int(w[1])
             if res == "done":
                 f34_wait.pop(a, None)
+            if a in rb_wait:
+                # C17: a sink is destroyed only after every logger that lists it was erased; the clean-up pass that erased the
+                # logger raises the caller's flag before it ends, so the caller's next resume after that pass returns
+                g, gs = rb_wait[a]
+                if res == "done" or res == "noop":
+                    rb_wait.pop(a)
+                elif res.startswith("parked:sleep") and any(x in erased_sinks for x in gs):
+                    viol.append(("C17", "remove_logger_blocking(%d) of actor %d is still parked although logger %d was erased in an earlier "
+                                 "backend pass (its sink %d has been destroyed): the caller is never released" % (
+                                     g, a, g, [x for x in gs if x in erased_sinks][0])))
+                    rb_wait.pop(a)
             if res.startswith("id=") and a in pending_by_actor:
                 i = pending_by_actor.pop(a)
                 finish_log(i, res, t_now)
@@ -735,6 +764,8 @@ def oracles(lines):
             flushed_after[int(e.split(":")[1])] = widx[0]
         elif e.startswith("n:dropped:"):
             dropped_reported += int(e.split(":")[2])
+        elif e.startswith("sinkdtor:"):
+            erased_now.add(int(e.split(":")[1]))
 
     # ---- C10 (w2_faults): every exception of a sink call / of the read pass is reported, once, right where it is caught -----
     FAULT_NOTES = ("n:wfail", "n:ffail", "n:empty", "n:unhandled")
@@ -834,6 +865,8 @@ def oracles(lines):
     q_snaps = []
     for k_op, (w, res, evs) in enumerate(rec["ops"]):
         op = w[0]
+        erased_sinks |= erased_now
+        erased_now.clear()
         if op == "Q":
             q_snaps.append((k_op, res, set(live_logged), set(exited), set(pending_by_actor.keys()) | set(flush_wait.keys())))
         if op == "K":
